@@ -166,10 +166,11 @@ class Oblig(object):
             self.c.fail('%s: %s' % (tag, what))
 
 
-def compare_msg(ob, tag, ev, ref, k):
+def compare_msg(ob, tag, ev, ref, k, client_closed=False):
     """k-th message: implementation event `ev` vs reference message `ref`"""
     kind = ref[0]
-    want = {'text': 'text', 'binary': 'binary', 'ping': 'ping', 'pong': 'pong', 'close': 'closing'}[kind]
+    want = {'text': 'text', 'binary': 'binary', 'ping': 'ping', 'pong': 'pong',
+            'close': 'closed' if client_closed else 'closing'}[kind]
     if ev.name != want:
         ob.fail(tag, 'message %d: expected a %s event, got %s' % (k, want, ev.name))
         return
@@ -191,8 +192,11 @@ def compare_msg(ob, tag, ev, ref, k):
             ob.prove(tag, eq_items(text_utf8_items(ev.reason), reason), 'message %d: Close reason differs' % k)
 
 
-def check_receive(c, w, rec, stream, tags, auto_pong=True, sock_id=0, bytewise_failfast=True, rsv1_ok=False):
-    """Oracle for a passive application receiving `stream` (items after the handshake) then EOF."""
+def check_receive(c, w, rec, stream, tags, auto_pong=True, sock_id=0, bytewise_failfast=True, rsv1_ok=False,
+                  client_closed=False):
+    """Oracle for a passive application receiving `stream` (items after the handshake) then EOF.
+    client_closed: the application called close(1000, b'bye') at Ready (the stream is then received in the closing
+    state: the server's Close is the reply -> Closed; no Pongs are written)."""
     ob = Oblig(c, tags)
     ref = refmodel.ref_receive(stream, rsv1_ok=rsv1_ok)
     names = rec.names()
@@ -219,12 +223,12 @@ def check_receive(c, w, rec, stream, tags, auto_pong=True, sock_id=0, bytewise_f
         if len(before) < nref:
             ob.fail('C01', 'only %d of %d messages delivered' % (len(before), nref))
         for k in range(min(nref, len(before))):
-            compare_msg(ob, 'C01', evs[before[k]], ref.msgs[k], k)
+            compare_msg(ob, 'C01', evs[before[k]], ref.msgs[k], k, client_closed)
     else:
         if len(before) < nref:
             ob.fail('C01', 'only %d of %d messages delivered (events %s)' % (len(before), nref, names))
         for k in range(min(nref, len(before))):
-            compare_msg(ob, 'C01', evs[before[k]], ref.msgs[k], k)
+            compare_msg(ob, 'C01', evs[before[k]], ref.msgs[k], k, client_closed)
         if len(before) > nref:
             extra = evs[before[nref]]
             if v is None:
@@ -280,7 +284,7 @@ def check_receive(c, w, rec, stream, tags, auto_pong=True, sock_id=0, bytewise_f
     # ---- terminal event
     if not names or names[-1] != 'disconnected' or not rec.stopped:
         ob.fail('C01' if ob.on('C01') else sorted(ob.tags)[0], 'iteration did not end with Disconnected: %s' % names)
-    elif v is None and not ref.dontcare:
+    elif v is None and not ref.dontcare and not client_closed:
         if evs[-1].graceful:
             ob.fail('C01' if ob.on('C01') else 'C04', 'graceful Disconnected although no Close was exchanged')
     # ---- wire: C14 pongs, C08 echo, C04 at most one Close after the violation
@@ -300,6 +304,16 @@ def check_receive(c, w, rec, stream, tags, auto_pong=True, sock_id=0, bytewise_f
         for f in fs:
             f['log'] = li
             frames.append(f)
+    if wire_ok and client_closed:
+        # the application's own Close is the first frame; afterwards nothing may be written at all
+        if not frames or frames[0]['opcode'] != refmodel.CLOSE:
+            ob.fail('C08', 'application close() at Ready did not write a Close frame first')
+        elif len(frames) > 1:
+            ob.fail('C04' if v is not None else 'C08', 'frame (opcode %d) written after the client already sent its Close'
+                    % frames[1]['opcode'])
+        if v is not None and pe_idx and names[-1] == 'disconnected' and evs[-1].graceful:
+            ob.fail('C04', 'graceful Disconnected after a protocol violation in the closing state')
+        wire_ok = False
     if wire_ok:
         fi = 0
         closed_by_client = False
